@@ -17,6 +17,12 @@ CLAIMED = {
  "C04": ("bounded-exhaustive enumeration of byte strings with deviation bound 2 (truncations, 1- and 2-byte corruptions of a valid corpus) fed to all 14 decoders in exact-capacity slices",
          "All byte strings up to 6/7 bytes over an 8-value alphabet with 30 first bytes for each of the 14 decoders, and for a corpus of valid packets of every structural shape: every truncation, every single-byte replacement by 9 values at every position, trailing bytes, every other decoder, and (thorough) every pair of replacements within the first 24 bytes; input slices have cap == len so that any read past the end panics; oracle: no panic, 0 <= n <= len, returned fields inside input[:n], agreement with the reference codec on every well-formed packet.",
          "Byte values outside the alphabets and corruptions of more than two bytes are not explored. Non-minimal remaining-length encodings are not counted as well-formed.", "DESIGN §5 C04"),
+ "C13": ("explicit-state breadth-first search over operation histories of the real Ackqueue against a list model, plus exhaustive capacity/wrap sweeps",
+         "Every sequence of register/acknowledge/collect operations (register PUBLISH QoS 1/2/dup, SUBSCRIBE, UNSUBSCRIBE, PINGREQ over three ids; each of the seven ack types incl. an unknown id; collect) up to depth 4/5 without de-duplication and to depth 7/9 with de-duplication on (model list, ring geometry), each step compared with a plain FIFO list (order, exactly-once, byte-identical request and final ack, callback kept); plus every combination of head offset 0..15, 0..40 in-flight entries (growth 4->64 while wrapped) and five ack orders.",
+         "Identifier set {1,2,3,9}; initial capacity 4 instead of 16 so that growth and wrap-around are reached early; the caller's buffers are overwritten after each call to expose aliasing.", "DESIGN §5 C13"),
+ "C06": ("bounded-exhaustive enumeration of all filter/name pairs up to four levels plus breadth-first search over subscribe/unsubscribe/retain histories of the real MemTopics against a matcher written from MQTT 3.1.1 section 4.7",
+         "All 780 filter strings (valid and invalid) and all topic names of 1..4 levels over {a, b, empty, +, #}: each valid filter alone in a fresh store against every name at every subscription/publish QoS, each invalid filter must be rejected without effect, unsubscribe must remove it, and the same for the retained relation; then all subscribe/unsubscribe/retain sequences over two subscribers to depth 3 and BFS with de-duplication on the model state to depth 5-7, every history followed by a full probe of names and filters.",
+         "Level alphabet of two literals; names starting with '$' excluded (the property excludes them). One listed finding (empty levels, pinned by the repository's tests) is recognised exactly: only a mismatch that equals the pinned behaviour counts as that finding.", "DESIGN §5 C06"),
 }
 
 NOT_YET = "check not built yet in this session; planned per DESIGN.md §5 (same engine)"
